@@ -1117,6 +1117,93 @@ class Gen:
                         f"Definition {coqname}_required : list string := {self.slist(req)}.\n"
                         f"Definition {coqname}_additional : bool := {'true' if addl else 'false'}.")
 
+    def gf_plan(self):
+        """the decision prefix of GFunction.g_function_interpolation (everything before the interpolation tables are built): snapping of the
+        equivalent height, extrapolation flag, choice of the interpolation kind.  The numeric part is translated statement by statement
+        (strings '' / 'extrapolate' of fill_value become false / true); the kind chain and the two dict literals become tables; the shape of the
+        surrounding control flow is emitted as source text, which Model/GfPlan.v pins."""
+        import copy
+        fname, qual = "gfunction.py", "GFunction.g_function_interpolation"
+        node = self.find(fname, qual)
+        body = node.body
+        texts = [ast.unparse(s) for s in body]
+        def at(i, prefix):
+            if i >= len(body) or not texts[i].startswith(prefix):
+                raise Unsupported(f"{qual}: statement {i} is expected to start with `{prefix}`, found `{texts[i][:60] if i < len(body) else None}`")
+            return body[i]
+        at(0, "h_eq = "); at(1, "tolerance = "); at(2, "height_values = list(self.g_lts.keys())"); at(3, "close_tolerance = ")
+        for i in (4, 5, 6):
+            if not isinstance(at(i, "if "), ast.If):
+                raise Unsupported(f"{qual}: statement {i} is not an if")
+        fill = copy.deepcopy(body[6])
+        warn = [s for s in fill.orelse if isinstance(s, ast.Expr) and ast.unparse(s).startswith("warnings.warn(")]
+        fill.orelse = [s for s in fill.orelse if s not in warn]
+
+        class Fill(ast.NodeTransformer):
+            def visit_Constant(self, n):
+                if n.value == "":
+                    return ast.copy_location(ast.Constant(value=False), n)
+                if n.value == "extrapolate":
+                    return ast.copy_location(ast.Constant(value=True), n)
+                if isinstance(n.value, str):
+                    raise Unsupported(f"{qual}: unexpected string {n.value!r} in the fill_value statement")
+                return n
+        stm = [copy.deepcopy(body[i]) for i in (1, 3, 4, 5)] + [Fill().visit(fill)]
+        stm.append(ast.Return(value=ast.Tuple(elts=[ast.Name(id="h_eq", ctx=ast.Load()), ast.Name(id="fill_value", ctx=ast.Load())], ctx=ast.Load())))
+        mk = lambda name, params, b: ast.fix_missing_locations(ast.FunctionDef(
+            name=name, args=ast.arguments(posonlyargs=[], args=[ast.arg(arg=p) for p in params], kwonlyargs=[], kw_defaults=[], defaults=[]),
+            body=b, decorator_list=[], lineno=node.lineno, col_offset=0))
+        tr = FuncTr(self, mk("gf_snap_fill", ["h_eq", "height_values"], stm), "gf_snap_fill", ptypes={"height_values": "list Q"})
+        self.out.append(f"(* {fname}:{body[1].lineno} {qual}: statements 1,3-6 (height snapping, extrapolation flag) *)\n{tr.translate()}")
+        # ---- kind == "default" chain
+        top = at(7, "if kind == 'default':")
+        if top.orelse or len(top.body) != 2 or ast.unparse(top.body[0]) != "num_curves = len(height_values)" or not isinstance(top.body[1], ast.If):
+            raise Unsupported(f"{qual}: unexpected shape of the kind == 'default' branch")
+        chain = []
+        cur = top.body[1]
+        while True:
+            t = cur.test
+            m = re.fullmatch(r"num_curves (>=|==) (\d+)", ast.unparse(t))
+            if m:
+                if not (len(cur.body) == 1 and isinstance(cur.body[0], ast.Assign) and ast.unparse(cur.body[0].targets[0]) == "kind"
+                        and isinstance(cur.body[0].value, ast.Constant) and isinstance(cur.body[0].value.value, str)):
+                    raise Unsupported(f"{qual}: a branch of the default-kind chain does more than assign a kind")
+                chain.append((m.group(1), int(m.group(2)), cur.body[0].value.value))
+                if not (len(cur.orelse) == 1 and isinstance(cur.orelse[0], ast.If)):
+                    raise Unsupported(f"{qual}: the default-kind chain must end in the single-curve test")
+                cur = cur.orelse[0]
+                continue
+            break
+        single_body = "; ".join(ast.unparse(s) for s in cur.body)
+        single_else = "; ".join(re.sub(r"\(.*\)$", "(...)", ast.unparse(s), flags=re.S) for s in cur.orelse)
+        tr = FuncTr(self, mk("gf_single_ok", ["h_eq", "height_values", "tolerance"], [ast.Return(value=cur.test)]), "gf_single_ok", ptypes={"height_values": "list Q"})
+        self.out.append(f"(* {fname}:{cur.lineno} {qual}: the single-curve test of the default chain *)\n{tr.translate()}")
+        lit = "[" + "; ".join(f'("{op}", {k}%Z, "{kind}")' for op, k, kind in chain) + "]%string"
+        self.out.append(f"(* {fname}:{top.lineno} {qual}: default-kind chain *)\nDefinition gf_default_chain : list (string * Z * string) := {lit}.")
+        # ---- the two dict literals
+        def dict_lit(i, name):
+            a = at(i, name + " = {")
+            if not isinstance(a.value, ast.Dict) or not all(isinstance(k, ast.Constant) and isinstance(v, ast.Constant) for k, v in zip(a.value.keys, a.value.values)):
+                raise Unsupported(f"{qual}: {name} is not a literal dict")
+            return [(k.value, v.value) for k, v in zip(a.value.keys, a.value.values)]
+        ik = dict_lit(8, "interpolation_kinds")
+        cb = dict_lit(9, "curves_by_kind")
+        if not all(isinstance(k, str) and isinstance(v, int) for k, v in ik) or not all(isinstance(k, int) and isinstance(v, str) for k, v in cb):
+            raise Unsupported(f"{qual}: unexpected key/value types in the kind tables")
+        self.out.append(f"(* {fname}:{body[8].lineno} {qual}: interpolation_kinds, curves_by_kind *)\n"
+                        "Definition gf_interpolation_kinds : list (string * Z) := [" + "; ".join(f'("{k}"%string, {v}%Z)' for k, v in ik) + "].\n"
+                        "Definition gf_curves_by_kind : list (Z * string) := [" + "; ".join(f'({k}%Z, "{v}"%string)' for k, v in cb) + "].")
+        # ---- control flow around the tables, as text (pinned by Model/GfPlan.v)
+        red = re.sub(r"raise ValueError\(.*?\)\n", "raise ValueError(...)\n", texts[10], flags=re.S)
+        red = " | ".join(l.strip() for l in red.splitlines() if l.strip() and not l.strip().startswith("#"))
+        at(11, "if len(self.interpolation_table) == 0:")
+        def esc(x):
+            return x.replace('"', '""')
+        self.out.append(f"(* {fname}:{body[10].lineno} {qual}: control flow around the tables, as source text *)\n"
+                        f'Definition gf_reduce_source : string := "{esc(red)}"%string.\n'
+                        f'Definition gf_single_branch_source : string := "{esc(single_body)} || {esc(single_else)}"%string.\n'
+                        f'Definition gf_fill_else_source : string := "{esc("; ".join(re.sub(r"[(].*[)]$", "(...)", ast.unparse(w), flags=re.S) for w in warn))}"%string.')
+
     def raw(self, text):
         self.out.append(text)
 
@@ -1179,6 +1266,7 @@ def build_spec(g):
     g.assign_expr("gfunction.py", "GFunction.g_function_interpolation", "h_eq", "h_eq_of", ["b_over_h"], attrs=["self.B"], index=0)
     g.assign_expr("gfunction.py", "GFunction.g_function_interpolation", "close_tolerance", "gf_close_tolerance", [])
     g.assign_expr("gfunction.py", "GFunction.g_function_interpolation", "tolerance", "gf_tolerance", [])
+    g.gf_plan()
     # ---- input files: keys written by to_input()/write_input_file, keys read by the CLI loader, schema key lists ----
     g.dict_keys("media.py", "GHEFluid.to_input", "keys_fluid")
     # the fluid named by the user -> the FluidType member stored -> the name written back; the mixture code handed to the property tables
